@@ -1,12 +1,12 @@
-\* exhaustive (thorough): payload buffers up to 2 PDUs, clock up to 2200 (three retry sleeps)
+\* exhaustive (thorough): three records (one per family), all four interval modes, payload buffers up to 2 PDUs, clock 1000..2500
 SPECIFICATION Spec
 CONSTANTS
   KF = {}
   RecSet = {"4:a", "6:b", "k:c"}
   Modes = {"min_max", "accept_any", "ignore_any", "ignore_on_failure"}
-  IvSet = {"bad", "iv1"}
-  MaxBuf = 3
-  MaxNow = 4700
+  IvSet = {"bad"}
+  MaxBuf = 2
+  MaxNow = 2500
   D = 0
 CONSTRAINT Bound
 INVARIANTS I_NoMonitorFails I_C05 I_C07 I_C07b I_C17
